@@ -2,6 +2,9 @@ package main
 
 import (
 	"fmt"
+	"os"
+	"os/exec"
+	"runtime/debug"
 	"strings"
 	"unicode/utf8"
 
@@ -208,14 +211,42 @@ func propC08(c *ctx) error {
 			exp.NewScope(S{}).Get(src)
 		})
 	}
-	// fragments that include themselves (directly, mutually, through replace, in a range): must end with an error
-	selfs := []string{
-		`<b :define="f"><i :insert="f"></i></b><p :insert="f"></p>`,
-		`<b :define="f"><i :replace="g"></i></b><b :define="g"><i :insert="f"></i></b><p :replace="f"></p>`,
-		`<b :define="f"><i :range="_, x : xs" :insert="f"></i></b><p :insert="f"></p>`,
-		`<p :insert="t"></p>`,
+	// every hostile expression inside every kind of directive value (Attr.Evaluate formats the result itself)
+	for _, e := range hostileExprs {
+		if strings.ContainsAny(e, "\"<>") || !utf8.ValidString(e) {
+			continue
+		}
+		for _, tplSrc := range []string{`<p :text="${` + e + `}" :title="x${` + e + `}y">o</p>`, `<p :if="${` + e + `}">o</p><q :else>e</q>`,
+			`<p :with="v := ${` + e + `}" :raw="${v}">o</p>`, `<p :range="k, v : ` + e + `" :text="${k}${v}">o</p>`, `<p :insert="${` + e + `}">o</p>`} {
+			data := hostileData(r)
+			res.eval("t|"+tplSrc, true, J{"src": tplSrc})
+			guard("Add+Execute (hostile value in a directive)", tplSrc, func() {
+				m, err, _ := implLoadNoRecover([][2]string{{"t", tplSrc}})
+				if err == nil {
+					t, _ := m.tm.GetTemplate("t")
+					var sb strings.Builder
+					t.Execute(&sb, data)
+				}
+			})
+		}
 	}
-	for _, src := range selfs {
+	// fragments that include themselves: run in a child process first, because a stack overflow is a fatal error
+	// that no recover() can observe
+	if exe, err := os.Executable(); err == nil {
+		cmd := exec.Command(exe, "probe-self")
+		out, err := cmd.CombinedOutput()
+		res.S3Checked++
+		if err != nil {
+			tail := string(out)
+			if len(tail) > 400 {
+				tail = tail[:400]
+			}
+			res.violate(J{"entry": "Execute (self-including fragments) in a child process", "templates": selfIncluding}, "exit status 0", err.Error()+": "+tail, "the process is killed by a self-including fragment")
+			return nil
+		}
+	}
+	// fragments that include themselves (directly, mutually, through replace, in a range): must end with an error
+	for _, src := range selfIncluding {
 		rc := &renderCase{Files: [][2]string{{"t", src}}, Tpl: "t", Data: vMap(kv{"xs", vIntSlice(1)}).j}
 		var out renderOut
 		guard("Execute (self-including fragment)", src, func() { out = implRender(rc, -1) })
@@ -230,6 +261,23 @@ func propC08(c *ctx) error {
 		}
 	}
 	return nil
+}
+
+var selfIncluding = []string{
+	`<b :define="f"><i :insert="f"></i></b><p :insert="f"></p>`,
+	`<b :define="f"><i :replace="g"></i></b><b :define="g"><i :insert="f"></i></b><p :replace="f"></p>`,
+	`<b :define="f"><i :range="_, x : xs" :insert="f"></i></b><p :insert="f"></p>`,
+	`<p :insert="t"></p>`,
+}
+
+// probeSelf is run in a child process: renders the self-including templates; a fatal stack overflow kills only it.
+func probeSelf() {
+	debug.SetMaxStack(64 << 20) // fail fast instead of growing to the default 1 GB limit
+	for _, src := range selfIncluding {
+		rc := &renderCase{Files: [][2]string{{"t", src}}, Tpl: "t", Data: vMap(kv{"xs", vIntSlice(1)}).j}
+		out := implRender(rc, -1)
+		fmt.Println(out.Load, out.St)
+	}
 }
 
 // implLoadNoRecover: Add without the harness's recover (the caller guards).
